@@ -75,11 +75,18 @@ pub struct Agg {
     pub violating_runs: u64,
     pub samples: Vec<Value>,
     pub hashes: BTreeMap<u64, u64>,
+    /// traces of base histories whose crash points are to be enumerated
+    pub enum_bases: Vec<(Job, Value)>,
 }
 
 impl Agg {
     fn add(&mut self, job: &Job, r: RunResult) {
         self.runs += 1;
+        if job.params.get("enumerate_crash_points").and_then(|v| v.as_bool()).unwrap_or(false) && r.violations.is_empty() {
+            if let Some(t) = &r.trace {
+                self.enum_bases.push((job.clone(), t.clone()));
+            }
+        }
         for (k, v) in &r.counters {
             *self.counters.entry(k.clone()).or_insert(0) += *v;
         }
@@ -133,6 +140,7 @@ fn make_jobs(o: &Opts, pool: &Pool) -> Vec<Job> {
         for i in 0..n {
             let mut params = b.params.clone();
             params["batch"] = json!(b.label);
+            let want_trace = params.get("enumerate_crash_points").and_then(|v| v.as_bool()).unwrap_or(false);
             jobs.push(Job {
                 engine: b.engine.to_string(),
                 prop: o.prop.clone(),
@@ -141,7 +149,7 @@ fn make_jobs(o: &Opts, pool: &Pool) -> Vec<Job> {
                 seed: run_seed(bseed, i),
                 params,
                 replay_file: None,
-                want_trace: false,
+                want_trace,
                 scratch: pool.scratch.clone(),
             });
             idx += 1;
@@ -150,47 +158,69 @@ fn make_jobs(o: &Opts, pool: &Pool) -> Vec<Job> {
     jobs
 }
 
-/// Re-run a candidate trace; returns the violation of the wanted class, if it still occurs.
-fn try_trace(pool: &Pool, base: &Job, trace: &Value, class: &str, n: usize, wd: u32) -> Option<(RunResult, Violation)> {
+/// Re-run candidate traces in parallel; returns the first (lowest index) that still
+/// shows a violation of the wanted class.
+fn try_traces(pool: &Pool, base: &Job, cands: &[Value], class: &str, round: usize, wd: u32) -> Option<(usize, RunResult, Violation)> {
     let dir = format!("{}/min", pool.scratch);
     let _ = std::fs::create_dir_all(&dir);
-    let path = format!("{dir}/cand-{n}.json");
-    std::fs::write(&path, serde_json::to_vec(&json!({"trace": trace})).unwrap()).ok()?;
-    let mut job = base.clone();
-    job.replay_file = Some(path.clone());
-    job.want_trace = true;
-    let mut out = None;
-    let _ = pool.run(vec![job], wd, |_, r| {
+    let mut jobs = vec![];
+    for (i, c) in cands.iter().enumerate() {
+        let path = format!("{dir}/cand-{round}-{i}.json");
+        if std::fs::write(&path, serde_json::to_vec(&json!({"trace": c})).unwrap()).is_err() {
+            continue;
+        }
+        let mut job = base.clone();
+        job.idx = i as u64;
+        job.replay_file = Some(path);
+        job.want_trace = true;
+        jobs.push(job);
+    }
+    let mut best: Option<(usize, RunResult, Violation)> = None;
+    let _ = pool.run(jobs, wd, |j, r| {
         if let Some(v) = r.violations.iter().find(|v| v.class == class).cloned() {
-            out = Some((r, v));
+            let i = j.idx as usize;
+            if best.as_ref().map(|b| i < b.0).unwrap_or(true) {
+                best = Some((i, r, v));
+            }
         }
     });
-    let _ = std::fs::remove_file(path);
-    out
+    let _ = std::fs::remove_dir_all(&dir);
+    best
 }
 
-/// Greedy delta-debugging over the engine's shrink candidates.
+/// Greedy delta-debugging over the engine's shrink candidates: each round asks
+/// the engine for reductions of the current trace (most aggressive first), runs
+/// them in parallel and adopts the first that keeps the same violation class.
 fn minimise(pool: &Pool, job: &Job, res: &RunResult, v: &Violation, budget: usize, wd: u32) -> (Value, Violation, usize, bool) {
     let Some(mut best) = res.trace.clone() else { return (Value::Null, v.clone(), 0, false) };
     let mut best_v = v.clone();
     let mut used = 0usize;
-    let mut improved = true;
     let mut any = false;
-    while improved && used < budget {
-        improved = false;
-        let cands = crate::engines::shrink_candidates(&job.engine, &best);
-        for c in cands {
-            if used >= budget {
+    let mut round = 0usize;
+    let mut stage = 0usize;
+    while used < budget {
+        round += 1;
+        let mut cands = crate::engines::shrink_candidates(&job.engine, &best, stage);
+        if cands.is_empty() {
+            if stage >= crate::engines::SHRINK_STAGES {
                 break;
             }
-            used += 1;
-            if let Some((r, nv)) = try_trace(pool, job, &c, &v.class, used, wd) {
-                best = r.trace.unwrap_or(c);
+            stage += 1;
+            continue;
+        }
+        cands.truncate(budget - used);
+        used += cands.len();
+        match try_traces(pool, job, &cands, &v.class, round, wd) {
+            Some((_, r, nv)) => {
+                best = r.trace.unwrap_or(Value::Null);
                 best_v = nv;
-                improved = true;
                 any = true;
-                break;
+                // stay in the same stage: more of the same kind may be possible
             }
+            None => stage += 1,
+        }
+        if stage > crate::engines::SHRINK_STAGES {
+            break;
         }
     }
     (best, best_v, used, any)
@@ -242,10 +272,52 @@ pub fn run_check(o: &Opts) -> i32 {
     if let Err(e) = run {
         agg.harness_errors.push(e);
     }
+    // ---- crash-point enumeration: every event of every dictionary save of every base history
+    let bases = std::mem::take(&mut agg.enum_bases);
+    if !bases.is_empty() {
+        let dir = format!("{}/enum", pool.scratch);
+        let _ = std::fs::create_dir_all(&dir);
+        let mut vjobs = vec![];
+        let mut next_idx = njobs as u64;
+        let mut points = 0u64;
+        for (bj, trace) in &bases {
+            let vs = crate::lsp::crashenum::variants(trace, bj.seed);
+            points += vs.len() as u64;
+            for (name, t) in vs {
+                let path = format!("{dir}/v-{next_idx}.json");
+                if std::fs::write(&path, serde_json::to_vec(&json!({"trace": t})).unwrap()).is_err() {
+                    continue;
+                }
+                let mut j = bj.clone();
+                j.idx = next_idx;
+                j.replay_file = Some(path);
+                j.want_trace = false;
+                j.params["batch"] = json!("crash-enum-variants");
+                j.params["variant"] = json!(name);
+                j.params["enumerate_crash_points"] = json!(false);
+                vjobs.push(j);
+                next_idx += 1;
+            }
+        }
+        println!("ENUM crash points: {} base histories -> {} crash variants", bases.len(), points);
+        agg.counters.insert("crash_points_enumerated".into(), points);
+        agg.counters.insert("crash_enum_base_histories".into(), bases.len() as u64);
+        let run2 = pool.run(vjobs, def.watchdog_secs, |job, r| {
+            *per_batch.entry("crash-enum-variants".to_string()).or_insert(0) += 1;
+            agg.add(job, r)
+        });
+        if let Err(e) = run2 {
+            agg.harness_errors.push(e);
+        }
+        if let Ok(keep) = std::env::var("HSIM_KEEP_ENUM") {
+            let _ = std::process::Command::new("cp").arg("-r").arg(&dir).arg(&keep).status();
+        }
+        let _ = std::fs::remove_dir_all(&dir);
+    }
     let sim_wall = t0.elapsed().as_secs_f64();
 
     // ---- violations: minimise, replay-check, report
-    let known = load_known();
+    let known = if std::env::var("HSIM_IGNORE_KNOWN").is_ok() { vec![] } else { load_known() };
     let mut exit = 0;
     let mut reported = vec![];
     let mut known_hits: BTreeSet<String> = BTreeSet::new();
